@@ -302,7 +302,7 @@ class Multisphere(ScatteringTheory):
         # See lines 331-360 of scsmfo1b.for
         qscat_0 = (np.abs(amn[:,:,0] + amn[:,:,1])**2).sum()
         qscat_pi2 = (np.abs(amn[:,:,0] - amn[:,:,1])**2).sum()
-        qscat_pi4 = (np.abs(amn[:,:,0] - 1.j * amn[:,:,1])**2).sum()
+        qscat_pi4 = (np.abs(amn[:,:,0] + 1.j * amn[:,:,1])**2).sum()
 
         # See line 81 (header doc) of scsmfo1b.for
         qscat = (qscat_0 + qscat_pi2 + cos(2. * gamma) * (qscat_0 - qscat_pi2)
